@@ -197,6 +197,15 @@ def payload_faults(seed):
             yield ["cut", oid, p]
         for how in ("+1", "-1", "0", "huge"):
             yield ["length", oid, how]
+    # encrypted seeds: the faults above hit the plaintext (the writer encrypts afterwards); these hit the ciphertext
+    if seed.encrypt is not None:
+        for oid in sorted(seed.objects):
+            if isinstance(seed.objects[oid], Stream):
+                for k in (0, 1, 15, 16, 17, 31, 32, 33, -1, -15, -16, -17):
+                    yield ["ecut", oid, k]
+                for p in (0, 15, 16, 17, 31, -1, -16, -17):
+                    yield ["eflip", oid, p, 0xFF]
+                    yield ["eflip", oid, p, 0x01]
     # dictionaries of the streams the writer adds itself (object stream, cross-reference stream)
     for kind, d in sorted(seed.container_dicts().items()):
         for path, x, ckind in walk(d, []):
@@ -270,6 +279,30 @@ def set_path(root, path, fn):
     fn(cur, key)
 
 
+class FaultyHandler:
+    """The seed's encryptor with one object's ciphertext damaged after encryption (/Length follows the damage)."""
+
+    def __init__(self, inner, f):
+        self.inner, self.f = inner, f
+
+    def __getattr__(self, name):
+        return getattr(self.inner, name)
+
+    def encrypt_value(self, num, gen, v):
+        out = self.inner.encrypt_value(num, gen, v)
+        if num == self.f[1] and isinstance(out, Stream):
+            raw = bytearray(out.raw)
+            if self.f[0] == "ecut":
+                k = self.f[2]
+                raw = raw[: max(0, k if k >= 0 else len(raw) + k)]
+            elif raw:
+                raw[self.f[2] % len(raw)] ^= self.f[3]
+            d = dict(out.dict)
+            d[b"Length"] = len(raw)
+            out = Stream(d, bytes(raw), out.eol, out.pre_end)
+        return out
+
+
 def apply_fault(seed, f):
     """-> faulted bytes"""
     kind = f[0]
@@ -289,6 +322,8 @@ def apply_fault(seed, f):
                 set_path(d, path, lambda c, key: c.__delitem__(key))
 
         return seed.build(None, hook)
+    if kind in ("ecut", "eflip"):
+        return seed.writer(encrypt=FaultyHandler(seed.encrypt, f)).getvalue()
     if kind == "ccut":
         b = bytearray(BASE[seed.name])
         (pos, n) = [(p, ln) for (num, p, ln) in seed.container_streams() if num == f[1]][0]
@@ -462,6 +497,8 @@ def role_of(seed, f):
         return "InlineImage.<dict>"
     if kind == "cflip":
         return "Container.<payload>"
+    if kind in ("ecut", "eflip"):
+        return r + ".<ciphertext>"
     if kind in ("flip", "cut", "length"):
         return r + ".<payload>"
     parts = []
@@ -595,7 +632,7 @@ def run(tape, ctx, item=None):
     devs = []
     fk, role = kind_of(f), role_of(seed, f)
     ctx.fault(f[0] if f[0] not in ("replace", "ref", "variant") else fk)
-    ctx.probe({"truncate": "truncation", "replace": "replace", "variant": "replace", "xrefcycle": "ref-loop", "prevloop": "ref-loop", "xrefstmloop": "ref-loop", "inline": "replace", "cdict": "replace", "ccut": "payload", "lengthref": "ref-loop", "remove": "remove", "ref": "ref-loop" if f[0] == "ref" and f[3][:3] in ("loo", "rho") else "replace", "flip": "payload", "cut": "payload", "length": "payload", "cflip": "payload"}[f[0]])
+    ctx.probe({"truncate": "truncation", "replace": "replace", "variant": "replace", "xrefcycle": "ref-loop", "prevloop": "ref-loop", "xrefstmloop": "ref-loop", "inline": "replace", "cdict": "replace", "ccut": "payload", "lengthref": "ref-loop", "remove": "remove", "ref": "ref-loop" if f[0] == "ref" and f[3][:3] in ("loo", "rho") else "replace", "flip": "payload", "cut": "payload", "length": "payload", "cflip": "payload", "ecut": "payload", "eflip": "payload"}[f[0]])
     outcomes = []
     for name, fn in entry_points(data, seed.name, f):
         seams.CLOCK.start(budget)
